@@ -5,6 +5,7 @@ import BqVerif.Proofs.Trace
 import BqVerif.Proofs.CircRel
 import BqVerif.Proofs.CircWhole
 import BqVerif.Proofs.CircReplace
+import BqVerif.Proofs.CircBatch
 /-! # C04 — Circuit editing calls have their documented effect on program order -/
 namespace BqVerif.C04
 open BqVerif.Circ
@@ -162,5 +163,55 @@ example :
     c.invB = true ∧ c.getOp (-2, 1) = .ok (1, 1, old) ∧ disjointL old.loc o.loc = false ∧
       sameSet old.loc o.loc = false ∧ c.checkValid o = .ok () ∧
       (c.replace (-2, 1) o).1.cycles = [[⟨1, [], [0], [2]⟩], [o], [⟨2, [], [1], [2]⟩]] := by decide
+
+/-- **batch_replace, all replacements in place** (every item addresses an operation whose
+location set equals that of the item's new operation): the call succeeds and is a POINTWISE
+SUBSTITUTION `σ` — the grid is stable: same number of cycles, cycle `k` is the old cycle `k` with
+every operation `x` replaced by `σ k x` in the same position, every cell `(k, q)` holds `σ k` of
+what it held, and `σ` keeps location sets.  `σ = substAll` of the normalised items sorted by
+cycle: an operation addressed by no item is untouched, an addressed one becomes the operation of
+the last item (in sorted order) that addresses it. -/
+theorem C04_batch_replace_same_loc (c : Circ) (hinv : c.Inv) (items0 : List ((Int × Int) × Op))
+    (hr : items0.all (fun it => c.cycleInRange it.1.1 && c.qubitInRange it.1.2) = true)
+    (hin : ∀ it ∈ items0, ∃ old,
+      c.cell (normIdx c.numCycles it.1.1) (normIdx c.numQudits it.1.2) = some old ∧
+        sameSet old.loc it.2.loc = true) :
+    let σ := substAll (sortItems (normItems c items0))
+    let c' := (c.batchReplace items0).1
+    (c.batchReplace items0).2 = .ok () ∧ c'.radixes = c.radixes ∧
+      c'.cycles.length = c.cycles.length ∧
+      (∀ k (h : k < c.cycles.length) (h' : k < c'.cycles.length),
+        c'.cycles[k] = c.cycles[k].map (σ k)) ∧
+      (∀ k q, c'.cell k q = (c.cell k q).map (σ k)) ∧
+      (∀ k (h : k < c.cycles.length), ∀ x ∈ c.cycles[k], ∀ q, q ∈ (σ k x).loc ↔ q ∈ x.loc) := by
+  intro σ c'
+  obtain ⟨h1, h2⟩ := batchReplace_same_loc c hinv items0 hr hin
+  have hc' : c' = mapCirc c σ := by simp only [c', h1]; rfl
+  refine ⟨by rw [h1], by rw [hc']; rfl, by rw [hc']; exact mapCirc_length c σ, ?_, ?_, h2⟩
+  · intro k h h'
+    have := mapCirc_getElem c σ k h
+    simp only [hc']; exact this
+  · intro k q; rw [hc']; exact mapCirc_cell c σ h2 k q
+
+/-- what the substitution does to one operation -/
+theorem C04_batch_replace_subst (its : List ((Int × Int) × Op)) (k : Nat) (x : Op) :
+    ((∀ it ∈ its, ¬ Addr it k x) → substAll its k x = x) ∧
+    (∀ pre post it, its = pre ++ it :: post → Addr it k x → (∀ it' ∈ post, ¬ Addr it' k x) →
+      substAll its k x = it.2) :=
+  ⟨substAll_none its k x, fun pre post it he ha h => he ▸ substAll_last pre post it k x ha h⟩
+
+-- non-vacuity: two in-place replacements (given out of order, one with a negative index)
+example :
+    let c : Circ := ⟨[2, 2], [[⟨1, [], [0], [2]⟩], [⟨6, [], [0, 1], [2, 2]⟩], [⟨2, [], [1], [2]⟩]]⟩
+    let items : List ((Int × Int) × Op) :=
+      [((-1, 1), ⟨3, [], [1], [2]⟩), ((1, 0), ⟨8, [], [1, 0], [2, 2]⟩)]
+    c.invB = true ∧
+      items.all (fun it => c.cycleInRange it.1.1 && c.qubitInRange it.1.2) = true ∧
+      (items.all fun it =>
+        match c.cell (normIdx c.numCycles it.1.1) (normIdx c.numQudits it.1.2) with
+        | some old => sameSet old.loc it.2.loc
+        | none => false) = true ∧
+      (c.batchReplace items).1.cycles =
+        [[⟨1, [], [0], [2]⟩], [⟨8, [], [1, 0], [2, 2]⟩], [⟨3, [], [1], [2]⟩]] := by decide
 
 end BqVerif.C04
